@@ -550,8 +550,11 @@ class Mitochondria:
                 if func_name in self.SAFE_FUNCTIONS:
                     func = self.SAFE_FUNCTIONS[func_name]
                     args = [self._compute_node(arg) for arg in node.args]
+                    if any(kw.arg is None for kw in node.keywords):
+                        raise ValueError("Argument unpacking (**) is not supported")
+                    kwargs = {kw.arg: self._compute_node(kw.value) for kw in node.keywords}
                     if callable(func):
-                        return func(*args)
+                        return func(*args, **kwargs)
                     return func  # Constants like pi, e
                 raise ValueError(f"Unknown function: {func_name}")
             raise ValueError("Complex function calls not supported")
